@@ -497,7 +497,9 @@ PROPS = {
                       "say nothing; the sweep is a search, and C11-C16, C19, C20 model those parts.",
         "why_difference_is_violation":
             "The model never panics (C03_* theorems) and the sweep's expected outcome is `safe`; the implementation panicked, "
-            "overflowed or returned an internal-assertion error on this input (sweep lines name the panic site).",
+            "overflowed or returned an internal-assertion error on this input (sweep lines name the panic site). Where the "
+            "as-coded model of an operation outside those theorems predicts the same panic / assertion outcome, the line is "
+            "reported all the same: the outcome itself is what the property forbids.",
         "rule": "suites c03 (surface sweep: outcome reduced to safe / panic@site / assert:call) + c04,c05,c06,c08,c09,c10,c17,c18 "
                 "(outcomes compared with the model); distinct = distinct op line; non-trivial = a value was computed (ok) or the "
                 "sweep line completed all its calls (safe)",
